@@ -39,6 +39,9 @@ func Escape(str string, isBytes bool) (string, error) {
 				} else {
 					buf = append(buf, `\n`...)
 				}
+			case '\r':
+				// A raw carriage return does not survive: the lexer normalises line ends.
+				buf = append(buf, `\x0d`...)
 			case '\t':
 				if isBytes {
 					buf = append(buf, `\x09`...)
